@@ -6,7 +6,9 @@ Statements over `Varpulis.Routing` (Model/Routing.lean), which mirrors `routing.
 (`event_type_matches`, `find_target_pipeline`), `pipeline_group.rs` (`ReplicaGroup::select_replica`) and the
 target logic of `coordinator.rs resolve_inject_target` / `inject_batch`.
 `h : Str → Nat` stands for `DefaultHasher` (SipHash-1-3, trusted), `fm : Fmt F` for serde_json's float printer and
-the integer-literal→f64 conversion of the two parsers (trusted).
+the integer-literal→f64 conversion of the two parsers (trusted). A float key `Key.float f` is a literal that both
+decimal parsers read as the same `f` (true up to 15 written digits and |decimal exponent| ≤ 22; beyond that the run
+shows they differ — known finding `C34-float-literal-rounding`, outside this model).
 -/
 namespace Varpulis.Props.C34
 open Varpulis.Routing
